@@ -151,6 +151,7 @@ func checkC01(r *core.Run) {
 	// the compensation is a function of the undo log alone
 	pureOfRuntimeState(r, "C01.pure", "the undo run (records read, executor chosen, compensating statement built)", append(append([]*core.FuncInfo{u.rollback}, u.chain...), reachFrom(r.W, u.executors, pUndo)...), nil)
 	r.Floor("C01.pure", 20)
+	rowsErrChecked(r, "C01.errchain", append(append([]*core.FuncInfo{}, u.chain...), reachFrom(r.W, u.executors, pUndo)...))
 	c01Reverse(r, u)
 	c01Dispatch(r, u)
 	r.Floor("C01.status", 3)
